@@ -19,6 +19,8 @@ structure Frame where
   context : Option Str := none
   targetLang : Val := .none
   saved : List (Nat × Nat) := []              -- on-error saved stream lengths
+  /-- `__slot_<name>` of a macro function: the filler popped at its start (`none` = no filler: default content) -/
+  slotFns : List (Str × Option Nat) := []
   deriving Inhabited
 
 structure ErrRec where
@@ -40,6 +42,19 @@ structure Env where
   rcontext : List (Str × Val)
   repeats : List (Str × RepItem)
   frames : List Frame
+  /-- is this scope a copy (`_root` set)?  The top-level scope is its own root. -/
+  hasRoot : Bool := false
+  deriving Inhabited
+
+/-- a slot filler: its node, and what the nested function sees of the function it was written in -/
+structure Closure where
+  node : Node
+  al : List (Str × Val)
+  cache : List (Nat × Val)
+  domain : Option Str
+  context : Option Str
+  targetLang : Val
+  slotFns : List (Str × Option Nat)
   deriving Inhabited
 
 structure RState where
@@ -49,6 +64,12 @@ structure RState where
   handled : Nat                                -- on_error_handler calls
   /-- the `i18n:name` streams of the translations being rendered (innermost first): name ↦ rendered markup -/
   tmaps : List (List (Str × Str)) := []
+  /-- `collections.deque` objects of slot fillers (by reference): id ↦ closure ids, leftmost first -/
+  heap : List (Nat × List Nat) := []
+  /-- the `__fill_<slot>` closures created so far -/
+  closures : Array Closure := #[]
+  /-- `rcontext['__error__']`: (pos, len) of the failing expression, innermost function first -/
+  errs : Array (Nat × Nat) := #[]
   deriving Inhabited
 
 structure ECfg where
@@ -60,6 +81,7 @@ structure ECfg where
   excParents : List (String × List String)     -- class ↦ its MRO names
   booleanAttrs : List Str
   src : Str                                    -- the (newline-normalised) template source, for token locations
+  macros : List (Str × Node) := []             -- the template's macros (`render_<name>` functions)
 
 inductive XRes (α : Type)
   | ok (a : α) (x : XState)
@@ -154,7 +176,8 @@ def runEM {α} (m : EM α) : XM α := fun x =>
   | (.unsupported w, _) => .unsupported w
 
 def mkECtx (cfg : ECfg) (al : List (Str × Val)) (e : Env) : ECtx :=
-  { tab := cfg.tab, vars := e.own ++ e.root, aliases := al, repeats := e.repeats, pyBuiltins := cfg.pyBuiltins }
+  { tab := cfg.tab, vars := e.own ++ e.root, aliases := al, repeats := e.repeats, pyBuiltins := cfg.pyBuiltins,
+    macroNames := cfg.macros.map (·.1) }
 
 /-- value classes of `__quote` / `__convert` -/
 def toQIn (cfg : ECfg) (v : Val) : R QIn :=
@@ -484,6 +507,86 @@ def onErrorHandle (cfg : ECfg) (key depth savedLen : Nat) (ex : Exc) (s' : RStat
     let env' : Env := { s'.env with own := (lit "error", Val.errorInfo ex.cls ex.msg line col) :: s'.env.own.filter (·.1 != lit "error") }
     some { s' with streams := streams1, handled := s'.handled + 1, env := env' }
 
+/-- `mangle(name)`: every non-word character becomes `_` (ASCII names) -/
+def mangleName (s : Str) : Str :=
+  s.map (fun c => if (48 ≤ c && c ≤ 57) || (65 ≤ c && c ≤ 90) || (97 ≤ c && c ≤ 122) || c == 95 || c ≥ 128 then c else 95)
+
+def slotKey (name : Str) : Str := lit "__slot_" ++ mangleName name
+
+/-- the slot names a macro function resolves at its start (`Compiler._slots`): every `metal:define-slot` of its body,
+those inside the fillers of nested `use-macro`s included (they are compiled as nested functions of this one) -/
+def definedSlots : Nat → Node → List Str
+  | 0, _ => []
+  | f+1, n =>
+    match n with
+    | .seq ns => ns.flatMap (definedSlots f)
+    | .element st en ct => definedSlots f st ++ definedSlots f ct ++ (match en with | some e => definedSlots f e | none => [])
+    | .start _ _ _ attrs => definedSlots f attrs
+    | .condition _ node orelse => definedSlots f node ++ (match orelse with | some o => definedSlots f o | none => [])
+    | .cache _ node | .cancel _ node | .define _ node | .repeat_ _ _ _ _ _ node => definedSlots f node
+    | .onError _ fallback node => definedSlots f fallback ++ definedSlots f node
+    | .translate _ _ node | .name _ node => definedSlots f node
+    | .domain _ node | .txContext _ node | .target _ node => definedSlots f node
+    | .defineSlot nm node => mangleName nm.str :: definedSlots f node
+    | .useExternal _ slots _ => slots.flatMap (fun (_, sn) => definedSlots f sn)
+    | _ => []
+
+def heapGet (h : List (Nat × List Nat)) (id : Nat) : List Nat := ((h.find? (·.1 == id)).map (·.2)).getD []
+def heapSet (h : List (Nat × List Nat)) (id : Nat) (v : List Nat) : List (Nat × List Nat) := (id, v) :: h.filter (·.1 != id)
+
+/-- `econtext.update(rcontext)` -/
+def updateOwn (own rc : List (Str × Val)) : List (Str × Val) :=
+  rc.foldr (fun (k, v) acc => (k, v) :: acc.filter (·.1 != k)) own
+
+def Env.rootDict (e : Env) : List (Str × Val) := if e.hasRoot then e.root else e.own
+
+/-- the slot resolution at the start of a macro function: `try: NAME = econtext[KEY].pop() except: NAME = None` -/
+def resolveSlots (env : Env) (heap : List (Nat × List Nat)) (names : List Str) :
+    List (Nat × List Nat) × List (Str × Option Nat) :=
+  names.foldl (fun (acc : List (Nat × List Nat) × List (Str × Option Nat)) nm =>
+    match env.get (lit "__slot_" ++ nm) with
+    | some (.slots did) =>
+      let ids := heapGet acc.1 did
+      match ids.getLast? with
+      | some cid => (heapSet acc.1 did ids.dropLast, acc.2 ++ [(nm, some cid)])
+      | none => (acc.1, acc.2 ++ [(nm, none)])
+    | _ => (acc.1, acc.2 ++ [(nm, none)])) (heap, [])
+
+/-- the state in which a macro function starts: a copy of the caller's scope, a fresh frame with the i18n settings
+passed as arguments, `__token = None`, slots resolved -/
+def macroEnter (body : Node) (s : RState) : RState :=
+  let names := (definedSlots 64 body).eraseDups
+  let callee : Env := { s.env with root := s.env.rootDict, hasRoot := true }
+  let (heap', slotFns) := resolveSlots callee s.heap names
+  let fr : Frame := { domain := s.env.topFrame.domain, context := s.env.topFrame.context,
+                      targetLang := s.env.topFrame.targetLang, slotFns := slotFns }
+  { s with heap := heap', env := { callee with frames := fr :: s.env.frames }, x := { s.x with token := none } }
+
+/-- back in the caller after a macro function returned: the callee's scope is gone, `rcontext` (and the repeat
+dictionary) are shared objects, `econtext.update(rcontext)` -/
+def macroLeave (s s' : RState) : RState :=
+  { s' with env := { s.env with rcontext := s'.env.rcontext, repeats := s'.env.repeats,
+                                 own := updateOwn s.env.own s'.env.rcontext },
+            x := { s'.x with token := s.x.token } }
+
+/-- … after it raised: its handler records `__tokens[__token]` (when a token is set) and re-raises; no update -/
+def macroRaise (s s' : RState) : RState :=
+  { s' with env := { s.env with rcontext := s'.env.rcontext, repeats := s'.env.repeats },
+            x := { s'.x with token := s.x.token },
+            errs := match s'.x.token with | some t => s'.errs.push t | none => s'.errs }
+
+/-- the state in which a slot filler runs: `SLOT(__stream, econtext.copy(), rcontext)` with the i18n settings, cached
+values and slot variables of the place where it was written -/
+def fillerEnter (cl : Closure) (s : RState) : RState :=
+  let fr : Frame := { cache := cl.cache, domain := cl.domain, context := cl.context, targetLang := cl.targetLang,
+                      slotFns := cl.slotFns }
+  { s with env := { s.env with root := s.env.rootDict, hasRoot := true, frames := fr :: s.env.frames } }
+
+/-- back in the macro: the filler's scope is gone (no `update`), its `__token` was its own local variable -/
+def fillerLeave (s s' : RState) : RState :=
+  { s' with env := { s.env with rcontext := s'.env.rcontext, repeats := s'.env.repeats },
+            x := { s'.x with token := s.x.token } }
+
 /-- the `i18n:name`s a translation collects at compile time (`Compiler._translations[-1]`): those of its body that
 are not inside a nested translation, in the order the compiler visits them -/
 def namesOf : Nat → Node → List Str
@@ -680,9 +783,59 @@ def eval (cfg : ECfg) (al : List (Str × Val)) : Nat → Node → RM Unit
       let v ← popStream
       emit (lit "${" ++ nm.str ++ lit "}")
       setTName nm.str v
-    | .defineSlot _ _ => mUnsupported "metal:define-slot"
-    | .useExternal _ _ _ => mUnsupported "metal:use-macro"
-    | .useInternal _ => mUnsupported "metal:define-macro"
+    | .defineSlot nm node => fun s =>
+      match lookupAssoc s.env.topFrame.slotFns (mangleName nm.str) with
+      | some (some cid) =>
+        match s.closures[cid]? with
+        | none => .unsupported "unknown slot closure"
+        | some cl =>
+          match eval cfg cl.al f cl.node (fillerEnter cl s) with
+          | .ok () s' => .ok () (fillerLeave s s')
+          | .raised ex s' => .raised ex (fillerLeave s s')
+          | .unsupported w => .unsupported w
+      | _ => eval cfg al f node s
+    | .useExternal e slots extend => do
+      -- the fillers become nested functions; their deques go into the current scope
+      slots.forM (fun (nm, sn) => do
+        let s ← mGet
+        let cid := s.closures.size
+        let fr := s.env.topFrame
+        let cl : Closure := { node := sn, al := al, cache := fr.cache, domain := fr.domain, context := fr.context,
+                              targetLang := fr.targetLang, slotFns := fr.slotFns }
+        let key := slotKey nm.str
+        let existing : Option Val := if extend then s.env.get key else none
+        match existing with
+        | some (.slots did) =>
+          mSet { s with closures := s.closures.push cl, heap := heapSet s.heap did (cid :: heapGet s.heap did) }
+        | some _ => mUnsupported "extend-macro over a non-deque slot value"
+        | none => do
+          let did := s.heap.length + s.closures.size
+          mSet { s with closures := s.closures.push cl, heap := heapSet s.heap did [cid] }
+          setVar key (.slots did))
+      let v ← enVal cfg al e
+      match v with
+      | .macro (some name) =>
+        match lookupAssoc cfg.macros name with
+        | none => mUnsupported "macro of another template"
+        | some body => (fun s =>
+          match eval cfg ([] : List (Str × Val)) f body (macroEnter body s) with
+          | .ok () s' => .ok () (macroLeave s s')
+          | .raised ex s' => .raised ex (macroRaise s s')
+          | .unsupported w => .unsupported w)
+      | _ => mUnsupported "use-macro of this value"
+    | .useInternal name =>
+      match name with
+      | none => mUnsupported "use of the template itself as a macro"
+      | some nm =>
+        match lookupAssoc cfg.macros nm with
+        | none => mUnsupported "unknown internal macro"
+        | some body => (fun s =>
+          -- `__token = None` before the call
+          let s0 : RState := { s with x := { s.x with token := none } }
+          match eval cfg ([] : List (Str × Val)) f body (macroEnter body s0) with
+          | .ok () s' => .ok () (macroLeave s0 s')
+          | .raised ex s' => .raised ex (macroRaise s0 s')
+          | .unsupported w => .unsupported w)
     | .codeBlock _ => mUnsupported "code block"
 def evalList (cfg : ECfg) (al : List (Str × Val)) : Nat → List Node → RM Unit
   | 0, _ => mUnsupported "out of fuel"
